@@ -1893,4 +1893,131 @@ theorem closeBlock_spec (env : Env) (hind : IndentOk env.config) (pre snippet po
       apply List.map_congr_left; intro s _; rfl
     rw [this]; rfl
 
+/-- What one turn of `close_block`'s loop pushes. -/
+inductive CbStepOut (env : Env) (sl : Slice) : List Piece → Prop
+  | comment (o : List Piece) : sl.kind = .comment → CommentOut env sl.text o → CbStepOut env sl o
+  | skipped : sl.kind = .normal → CbStepOut env sl []
+  | code (nl : List Char) : sl.kind = .normal → AllWs nl →
+      CbStepOut env sl [⟨.blank, nl⟩, ⟨.code, trim sl.text⟩]
+
+inductive CbOut (env : Env) : List Slice → List Piece → Prop
+  | nil : CbOut env [] []
+  | cons (sl : Slice) (rest : List Slice) (o os : List Piece) : CbStepOut env sl o → CbOut env rest os →
+      CbOut env (sl :: rest) (o ++ os)
+
+/-- The loop of `close_block`, slice by slice. -/
+theorem cbLoop_out (env : Env) (hind : IndentOk env.config) (snippet : List Char) (un al : Bool)
+    (v0 : Vis) : ∀ (items : List Slice) (done : List Char) (cs : CbState) (v : Vis) (out : List Piece),
+    snippet = done ++ items.flatMap (·.text) → Contiguous (utf8Len done) items →
+    (∃ a b, done = a ++ b ∧ cs.lastHi = utf8Len a) → Pushed v0 v out →
+    ∃ cs' v' o, cbLoop env snippet un al items cs v = some (cs', v') ∧ Pushed v0 v' (out ++ o) ∧
+      CbOut env items o
+  | [], _, cs, v, out, _, _, _, hp => ⟨cs, v, [], rfl, by simpa using hp, CbOut.nil⟩
+  | sl :: rest, done, cs, v, out, hs, hcont, hhi, hp => by
+    obtain ⟨hstart, hcont'⟩ := hcont
+    have hs' : snippet = done ++ sl.text ++ rest.flatMap (·.text) := by
+      rw [hs]; simp [List.append_assoc]
+    have hstep : ∃ cs1 v1 o1, cbStep env snippet un al sl cs v = some (cs1, v1) ∧
+        Pushed v0 v1 (out ++ o1) ∧ (∃ a b, done ++ sl.text = a ++ b ∧ cs1.lastHi = utf8Len a) ∧
+        CbStepOut env sl o1 := by
+      unfold cbStep
+      by_cases hk : sl.kind = .comment
+      · rw [if_pos hk, hstart]
+        obtain ⟨cs1, v1, o1, hrun, hp1, hhi1, hout⟩ :=
+          cbComment_spec env hind snippet done sl.text (rest.flatMap (·.text)) hs' un al cs v0 v out hhi hp
+        exact ⟨cs1, v1, o1, hrun, hp1, ⟨done ++ sl.text, [], by simp, hhi1⟩, CbStepOut.comment o1 hk hout⟩
+      · rw [if_neg hk]
+        have hkn : sl.kind = .normal := by cases h : sl.kind <;> simp_all
+        by_cases hskip : skipNormal sl.text = true
+        · rw [if_pos hskip]
+          obtain ⟨a, b, hd, hl⟩ := hhi
+          exact ⟨_, v, [], rfl, by simpa using hp, ⟨a, b ++ sl.text, by rw [hd]; simp, hl⟩,
+            CbStepOut.skipped hkn⟩
+        · rw [if_neg hskip]
+          obtain ⟨nl, h1, h2⟩ := indentNl_ok env hind v.blockIndent
+          rw [h1]
+          refine ⟨_, _, [⟨.blank, nl⟩, ⟨.code, trim sl.text⟩], rfl, ?_,
+            ⟨done ++ sl.text, [], by simp, by simp [hstart, utf8Len_append]⟩, CbStepOut.code nl hkn h2⟩
+          have := (hp.push .blank nl).push .code (trim sl.text)
+          simpa [List.append_assoc] using this
+    obtain ⟨cs1, v1, o1, hrun, hp1, hhi1, hc1⟩ := hstep
+    obtain ⟨cs', v', o, hrun', hp', hc'⟩ :=
+      cbLoop_out env hind snippet un al v0 rest (done ++ sl.text) cs1 v1 (out ++ o1)
+        (by rw [hs]; simp [List.append_assoc]) (by rw [utf8Len_append]; exact hcont') hhi1 hp1
+    refine ⟨cs', v', o1 ++ o, ?_, by simpa [List.append_assoc] using hp', CbOut.cons sl rest o1 o hc1 hc'⟩
+    simp only [cbLoop, hrun]; exact hrun'
+
+/-- Below style edition 2024 the comment pieces of `close_block`'s loop are the comment slices, each as
+`rewrite_comment` returned it, once and in order. -/
+theorem CbOut.comments {env : Env} (hed : env.ed2024 = false) : ∀ {items : List Slice}
+    {lo : List Piece}, CbOut env items lo →
+    ∃ shapes : List Shape, shapes.length = (commentSlices items).length ∧
+      commentPieces lo = List.zipWith (fun c sh => rcOr env c sh) (commentSlices items) shapes := by
+  intro items lo h
+  induction h with
+  | nil => exact ⟨[], rfl, rfl⟩
+  | cons sl rest o os hstep hrest ih =>
+    obtain ⟨shapes, hlen, hzip⟩ := ih
+    rw [commentPieces_append]
+    cases hstep with
+    | comment _ hk hout =>
+      obtain ⟨pre, mid, post, rfl, hpre, hmid, hpost⟩ := hout
+      have hs : commentSlices (sl :: rest) = sl.text :: commentSlices rest := by
+        simp [commentSlices, hk]
+      rw [hs, commentPieces_append, commentPieces_append, hpre.noComment, hpost.noComment]
+      cases hmid with
+      | whole sh =>
+        refine ⟨sh :: shapes, by simp [hlen], ?_⟩
+        simp only [commentPieces, List.nil_append, List.append_nil] at hzip ⊢
+        simp [hzip]
+      | raw t h24 _ => rw [hed] at h24; cases h24
+      | split first rest' other nl sh h24 _ _ _ => rw [hed] at h24; cases h24
+    | skipped hk =>
+      have hs : commentSlices (sl :: rest) = commentSlices rest := by simp [commentSlices, hk]
+      rw [hs]
+      exact ⟨shapes, hlen, by simpa [commentPieces] using hzip⟩
+    | code nl hk _ =>
+      have hs : commentSlices (sl :: rest) = commentSlices rest := by simp [commentSlices, hk]
+      rw [hs]
+      exact ⟨shapes, hlen, by simpa [commentPieces] using hzip⟩
+
+/-- `close_block`, below style edition 2024: the comment pieces are the comment slices of the snippet. -/
+theorem closeBlock_comments (env : Env) (hind : IndentOk env.config) (hed : env.ed2024 = false)
+    (pre snippet post : List Char) (hbig : env.big = pre ++ snippet ++ post) (un : Bool) (v v' : Vis)
+    (h : closeBlock env (utf8Len pre) (utf8Len pre + utf8Len snippet) un v = some v') :
+    ∃ o shapes, v'.log = v.log ++ o ∧ shapes.length = (commentTexts snippet).length ∧
+      commentPieces o = List.zipWith (fun c sh => rcOr env c sh) (commentTexts snippet) shapes := by
+  unfold closeBlock at h
+  have hle : utf8Len pre ≤ utf8Len pre + utf8Len snippet := by omega
+  have hsl : sliceBytes? env.big (min (utf8Len pre) (utf8Len pre + utf8Len snippet))
+      (max (utf8Len pre) (utf8Len pre + utf8Len snippet)) = some snippet := by
+    rw [Nat.min_eq_left hle, Nat.max_eq_right hle]
+    exact sliceBytes_of_split env.big pre snippet post _ _ hbig rfl rfl
+  rw [hsl] at h; simp only at h
+  obtain ⟨items, hitems, hcat, _, hcont⟩ := slices_spec snippet
+  rw [hitems] at h; simp only at h
+  generalize (if (un && containsComment snippet) = true then
+      decide (lastLineWidth env (List.takeWhile (fun x => x != '/') snippet) > lastLineWidth env snippet)
+    else false) = al at h
+  obtain ⟨cs, v1, o1, hrun, hp1, hout⟩ :=
+    cbLoop_out env hind snippet un al v items [] ⟨0, false, false, false⟩ v [] (by simp [hcat])
+      (by simpa [utf8Len] using hcont) ⟨[], [], rfl, rfl⟩ (Pushed.refl v)
+  rw [hrun] at h; simp only at h
+  obtain ⟨j, hj⟩ := blockUnindent_ok env
+    (if cs.unindented = true then v1.blockIndent.blockIndent env.config else v1.blockIndent)
+  rw [hj] at h; simp only at h
+  obtain ⟨nl, h1, h2⟩ := indentNl_ok env hind j
+  rw [h1] at h
+  have hv' : v' = (({ v1 with blockIndent := j } : Vis).push .blank nl).push .code ['}'] := by
+    injection h with h; exact h.symm
+  obtain ⟨shapes, hlen, hzip⟩ := hout.comments hed
+  have hp := ((hp1.setIndent j).push .blank nl).push .code ['}']
+  rw [← hv'] at hp
+  refine ⟨o1 ++ [⟨.blank, nl⟩, ⟨.code, ['}']⟩], shapes, by simpa [List.append_assoc] using hp.log, ?_, ?_⟩
+  · simp only [commentTexts, hitems]; exact hlen
+  · rw [commentPieces_append]
+    have : commentPieces [⟨Tag.blank, nl⟩, ⟨Tag.code, ['}']⟩] = [] := by simp [commentPieces]
+    rw [this, hzip]
+    simp [commentTexts, hitems, commentSlices]
+
 end RF.Lemmas.Missed
